@@ -347,7 +347,20 @@ func c13TokType(open rune) uint8 {
 func c13CheckLex(src []rune) (bool, *mc.Failure) {
 	set := c13RefSet(src, -1)
 	r0 := set[0]
+	var keep [96]rune
+	nk := copy(keep[:], src)
 	got := c13Lex(src)
+	// the lexer reads its input: the same rune slice is lexed again by the next
+	// Execute of a loaded script, so it must come back unchanged
+	for i := 0; i < nk; i++ {
+		if src[i] != keep[i] {
+			orig := append([]rune{}, keep[:nk]...)
+			changed := string(src)
+			copy(src, orig)
+			return true, &mc.Failure{Kind: "mismatch", Bucket: "source-modified", Case: mc.J(c13Case{Mode: "lex", Source: string(orig), Runes: toInts(orig)}),
+				Expected: "the source text is unchanged after lexing", Observed: fmt.Sprintf("source is now %q", changed)}
+		}
+	}
 	cs := func() json.RawMessage { return mc.J(c13Case{Mode: "lex", Source: string(src), Runes: toInts(src)}) }
 	if got.perr != "" && got.err == 0 {
 		return true, &mc.Failure{Kind: "panic", Case: cs(), Observed: got.perr}
@@ -408,8 +421,8 @@ func c13E2E(src []rune, want string) *mc.Failure {
 				f = &mc.Failure{Kind: "panic", Case: cs(), Observed: fmt.Sprint(p)}
 			}
 		}()
-		in := exec.NewInterpreter("verif")
-		v, err := in.LoadScript(prog).Execute(r.ElementMap{})
+		in := exec.NewInterpreter("verif").LoadScript(prog)
+		v, err := in.Execute(r.ElementMap{})
 		if err != nil {
 			f = &mc.Failure{Kind: "mismatch", Case: cs(), Expected: fmt.Sprintf("text %q", want), Observed: "error: " + err.Error()}
 			return
@@ -417,6 +430,13 @@ func c13E2E(src []rune, want string) *mc.Failure {
 		s, ok := v.(*value.String)
 		if !ok || s.GetValue() != want {
 			f = &mc.Failure{Kind: "mismatch", Case: cs(), Expected: fmt.Sprintf("text %q", want), Observed: fmt.Sprintf("%T %v", v, v)}
+			return
+		}
+		// the same loaded script executed again (what a server worker does per request)
+		v2, err := in.Execute(r.ElementMap{})
+		s2, ok := v2.(*value.String)
+		if err != nil || !ok || s2.GetValue() != want {
+			f = &mc.Failure{Kind: "mismatch", Bucket: "second-execute", Case: cs(), Expected: fmt.Sprintf("text %q again on the second Execute of the same loaded script", want), Observed: fmt.Sprintf("%T %v err=%v", v2, v2, err)}
 		}
 	}()
 	return f
@@ -509,7 +529,7 @@ func init() {
 		ID:    "C13",
 		Level: "exploration",
 		Rule: "E1 exhaustive: every literal body of length <= L over a 31-symbol critical alphabet (10 quote characters, backtick, CR, LF, letters of the escape names, +, hex digits, x, a CJK char, space) inside each of the 5 opening quotes, real lexer vs reference decoder; every sequence of <= 5 (6 thorough) words of a 23-word alphabet (escape names as units, hex words, quotes, line breaks); every backtick text of <= 5 letters over the 14 letters of the escape names (so every near miss of an escape name, e.g. `TABK`, `CRL`, `U+`); " +
-			"plus round trip text->canonical literal->lexer for every text <= L (3 encoders x 5 quotes) and Unicode scalar boundaries. Enumeration is injective (odometer), so every case is distinct; a case is non-trivial if it contains a backtick, a quote character or a line break (i.e. exercises more than verbatim copying).",
+			"plus round trip text->canonical literal->lexer for every text <= L (3 encoders x 5 quotes) and Unicode scalar boundaries. The lexer must leave its input unchanged, and the end-to-end cases (bodies <= 3 symbols in the two double-quote families, word sequences <= 2) execute one loaded script twice with the same value. Enumeration is injective (odometer), so every case is distinct; a case is non-trivial if it contains a backtick, a quote character or a line break (i.e. exercises more than verbatim copying).",
 		Assumptions: []string{
 			"reference decoder written from manual chapters 1 and 6; where three readings of 'other backtick text is kept literally' disagree, only 'no crash and the value is one of the readings' is required",
 			"U+hex outside the Unicode scalar range is not asserted (statement restricts it to valid code points)",
@@ -655,6 +675,15 @@ func c13Run(c *mc.Ctx) {
 			if f != nil {
 				f.Sig = c13Sig(f)
 				c.Fail(*f)
+			} else if as && n <= 2 && k%5 < 2 {
+				// end to end, executed twice from one loaded script
+				if r0 := c13Ref(src, 0); r0.ok && r0.end == len(src) {
+					if f := c13E2E(src, r0.val); f != nil {
+						f.Sig = c13Sig(f)
+						c.Fail(*f)
+					}
+					c.Stat("end_to_end_runs", 1)
+				}
 			}
 		}
 		base += total * 5
